@@ -37,6 +37,11 @@ def make_cases(tier, rng):
     # random sequences
     for _ in range(150 if tier == "quick" else 3000):
         add([tok(rng) for _ in range(rng.randint(2, 4))], unterminated=rng.random() < 0.25)
+    # a real child process launched with Cmd: its stderr lines first, then the first stdout line -- malformed in two of
+    # three cases, so that Start fails and kills it while the (slow) reader of its stderr is still behind
+    for i in range(12 if tier == "quick" else 120):
+        add([tok(rng, rng.choice(["plain", "plain", "j_info", "p_warn"]), "fits") for _ in range(rng.randint(3, 12))], rng.choice([256, 65536]), stdout=(0, [1]))
+        cases[-1].update({"real": True, "bad_line": i % 3 != 2, "slow_write_ms": rng.choice([0, 5, 30]), "stderr_first": False})
     # stdout volume after the handshake: long lines, many lines
     add([tok(rng, "plain", "fits")], 65536, stdout=(2 << 20, [1, 100, 70000]))
     add([tok(rng, "plain", "fits")], 65536, stdout=(3 << 20, [1 << 20]))
